@@ -66,7 +66,9 @@ Inductive expr :=
 | ESlice (a : expr) (lo hi : option expr)
 | EField (a : expr) (f : string)
 | EIsNil (a : expr)                  (* a == nil, for errors / pointers *)
-| EErrIs (a : expr) (name : string)  (* a == ErrX  /  errors.Is(a, ErrX) *)
+| EErrIs (a : expr) (name : string)  (* a == ErrX: the error value itself, not something that wraps it *)
+| EErrorsIs (a : expr) (name : string) (* errors.Is(a, ErrX): sees through %w wrapping *)
+| EWrap (a : expr)                   (* fmt.Errorf("...%w...", a): a new error that wraps a (its text is not modelled) *)
 | EStructLit (fs : list (string * expr))
 | EBuiltin (f : string) (args : list expr).
 
@@ -126,6 +128,19 @@ Fixpoint plookup (f : string) (p : program) : option fdecl :=
   end.
 
 (* ------------------------------------------------------------------ expressions *)
+(* error values are names; an error that wraps another one (fmt.Errorf with %w) is the wrapped name behind the marker
+   "%w " — `==` compares the names, errors.Is the innermost wrapped name *)
+Definition ch_pct : Ascii.ascii := Ascii.Ascii true false true false false true false false.      (* "%" *)
+Definition ch_w : Ascii.ascii := Ascii.Ascii true true true false true true true false.            (* "w" *)
+Definition ch_sp : Ascii.ascii := Ascii.Ascii false false false false false true false false.      (* " " *)
+Definition err_wrap (m : string) : string := String ch_pct (String ch_w (String ch_sp m)).
+Fixpoint err_root (m : string) : string :=
+  match m with
+  | String c1 (String c2 (String c3 r)) =>
+      if (Ascii.eqb c1 ch_pct && Ascii.eqb c2 ch_w && Ascii.eqb c3 ch_sp)%bool then err_root r else m
+  | _ => m
+  end.
+
 Inductive eres := EV (v : val) | EPanic | EStuck.
 
 Definition ebind (r : eres) (k : val -> eres) : eres :=
@@ -196,6 +211,8 @@ Definition builtin (f : string) (args : list val) : eres :=
   | "make", [VInt n] => if n <? 0 then EPanic else EV (VInts (repeat 0 (Z.to_nat n)))
   | "append", [VInts a; VInts b] => EV (VInts (a ++ b))
   | "append1", [VInts a; VInt b] => EV (VInts (a ++ [b]))
+  | "makev", [] => EV (VTuple [])                          (* make([]T, 0) for a slice of struct values *)
+  | "appendv", [VTuple a; b] => EV (VTuple (a ++ [b]))     (* append(s, v) on such a slice *)
   | _, _ => EStuck
   end.
 
@@ -255,6 +272,10 @@ Fixpoint eval (e : env) (x : expr) {struct x} : eres :=
         match va with VNil => EV (VBool true) | VErr _ => EV (VBool false) | VStruct _ => EV (VBool false) | _ => EStuck end)
   | EErrIs a n => ebind (eval e a) (fun va =>
         match va with VNil => EV (VBool false) | VErr m => EV (VBool (String.eqb m n)) | _ => EStuck end)
+  | EErrorsIs a n => ebind (eval e a) (fun va =>
+        match va with VNil => EV (VBool false) | VErr m => EV (VBool (String.eqb (err_root m) n)) | _ => EStuck end)
+  | EWrap a => ebind (eval e a) (fun va =>
+        match va with VNil => EV (VErr "fmt.Errorf") | VErr m => EV (VErr (err_wrap m)) | _ => EStuck end)
   | EStructLit fs =>
       (fix go (l : list (string * expr)) (acc : list (string * val)) : eres :=
          match l with
